@@ -342,6 +342,11 @@ def maskargs(draw, fs):
         else:
             x = draw(st.sampled_from(pool))
             if n in ('values', 'equal'):
+                # numpy.ma.masked_values / masked_equal store the value as
+                # fill_value and raise when it does not fit the variable's
+                # dtype: keep it inside int16
+                x = draw(st.sampled_from([y for y in pool
+                                          if abs(y) <= 30000]))
                 if hasint:
                     x = int(np.trunc(x))
             elif draw(st.integers(0, 3)) == 0:
